@@ -1201,8 +1201,11 @@ def run_C07(ctx):
     n, rej = vlib.adjudicate("P_Sizing", p, w, parallel=2)
     ctx.judged += n
     ctx.tagged += n
+    _, recs = vlib.load_records(p, [tid for tid, _ in rej]) if rej else (None, {})
     for tid, clause in rej:
-        ctx.rejects.append({"tid": tid, "clause": clause, "records": p, "s": "sizing", "pspec": "P_Sizing", "pconsts": {}, "hist": None, "scenarios": None, "kind": "sizing"})
+        r = recs.get(tid) or {}
+        ctx.rejects.append({"tid": tid, "clause": clause, "records": p, "s": "sizing", "pspec": "P_Sizing", "pconsts": {}, "hist": None, "scenarios": None, "kind": "sizing",
+                            "sig": "pexp=%d n=%d" % (r.get("pexp", 0), r.get("n", 0))})
     sample_records(ctx, p, 2)
     extra_constructors(ctx)
     extra_extend(ctx)
@@ -1258,7 +1261,7 @@ def sizing_replay(ctx, rp):
     r = rp["record"]
     gen = os.path.join(w, "pt.ndjson")
     with open(gen, "w") as f:
-        f.write(json.dumps({"k": "pt", "n": r["n"], "a": r["a"], "c": r["c"], "kspec": r["kspec"]}) + "\n")
+        f.write(json.dumps({"k": "pt", "n": r["n"], "a": r["a"], "c": r["c"], "pexp": r.get("pexp", 0), "kspec": r["kspec"]}) + "\n")
     p = os.path.join(w, "p.ndjson")
     vlib.vh(["sizing", "all", "--gen", gen, "--out", p, "--seed", str(ctx.seed)], w)
     n, rej = vlib.adjudicate("P_Sizing", p, w, parallel=1)
